@@ -341,6 +341,16 @@ def run_check(mod, tier, seed, replay=None):
         if replay:
             mod.replay(ctx, json.load(open(replay)))
         else:
+            # the corpus first: replay files of every defect this property's check has found (fixed ones must stay
+            # fixed, open ones are matched against known_findings.json like any other failure)
+            cdir = os.path.join(VERIF, "corpus", pid)
+            # (only for modules whose replay() applies the same canonicalisation and oracles as run(): CORPUS_FIRST)
+            for f in sorted(os.listdir(cdir)) if (os.path.isdir(cdir) and getattr(mod, "CORPUS_FIRST", False)) else []:
+                if f.endswith(".json"):
+                    n0 = ctx.evaluations
+                    mod.replay(ctx, json.load(open(os.path.join(cdir, f))))
+                    ctx.count("corpus-replays")
+                    ctx.count("corpus-ops", ctx.evaluations - n0)
             mod.run(ctx)
     except Exception as e:  # a harness failure is never silently a pass
         import traceback
